@@ -139,6 +139,11 @@ class ObjT(T):
         return (self.cls,)
 
 
+class AnyT(T):
+    """In an ObjSpec: the field may hold anything (it is not read before being overwritten)."""
+    pass
+
+
 class FuncT(T):
     """A function value known at verification time (payload: qualified name)."""
     pass
@@ -151,6 +156,7 @@ VAL = ValT()
 NONE = NoneT()
 STR = StrConstT()
 FUNC = FuncT()
+ANY = AnyT()
 
 ValSort = z3.DeclareSort('Val')
 
